@@ -8,7 +8,7 @@ PY = '/venv/bin/python'
 
 LEVEL_TEXT = {
     'C01': 'Static necessary conditions of binary round-trip: Paths(encode) <= Paths(decode) over the Encoder/Decoder token vocabulary for every PER/UPER/OER class under every configuration (abstract interpretation), pairing in all dispatch tables, DEFAULT elide/restore pairing on path summaries, decoder-derived widths by bounded evaluation, extension-marker state machine, alignment over the whole write position, delegation mirror (per configuration the decoder hands the data to the mirrored methods of the children the encoder used) on BER/DER/PER/UPER/OER. Decides the shape, not value equality. Time text written with fixed-width fields only (no strftime directive of platform-dependent width); the decoders of known-multiplier strings rebuild characters with the width of the unconstrained alphabet. OBJECT IDENTIFIER contents encoder / decoder and the BIT STRING value cleaning used for DEFAULT comparison decided by bounded evaluation. The converter of DEFAULT values has no path that answers "no DEFAULT" for a notation it does not understand.',
-    'C02': 'Static pairing / literal-agreement / REAL-formatting rules over jer.py and xer.py on path summaries (special values excluded before formatting, pass-through shortcuts only over identity conversions; delegation mirror of encode/decode and encode_of/decode_of per configuration); structural necessary conditions, not document validity or value equality. A class whose XER encoder gives its element children never reads that element\'s own text (indentation lives there). XER element names derived from type names are sanitised.',
+    'C02': 'Static pairing / literal-agreement / REAL-formatting rules over jer.py and xer.py on path summaries (special values excluded before formatting, pass-through shortcuts only over identity conversions; delegation mirror of encode/decode and encode_of/decode_of per configuration); structural necessary conditions, not document validity or value equality. A class whose XER encoder gives its element children never reads that element\'s own text (indentation lives there). XER element names derived from type names are sanitised. A carriage return in an XER string value is written as a character reference or refused.',
     'C03': 'Static DER canonical-form obligations visible in code shape (SET sorted by tag, SET OF sorted, primitive-only encode paths, restricted and zero-filled time forms, definite lengths only, CHOICE forces EXPLICIT on every path that sets a tag kind, minimal length/tag tables, base-128 thresholds, transparent wrappers decide DEFAULT equality by the wrapped type). Time values reach the conversion helpers without arithmetic; leaf encoders (tag, length, signed integer, SET sort key) decided by bounded evaluation first. BIT STRING value cleaning (DEFAULT comparison) decided by bounded evaluation.',
     'C04': 'Static acceptance-shape rules for the BER decoder (indefinite allowed on constructed classes, length-is-None handled before arithmetic wherever the length is handed to, end-of-contents typestate, constructed-tag aliases, order-insensitive member loop, no length minimality test, segments joined before text decoding). Every base / scaling factor / exponent form of the binary REAL encoding is decoded (bounded evaluation of decode_real).',
     'C05': 'PER/UPER primitives, INTEGER and the CHOICE index evaluated on boundary arguments by the checker\'s own bit-level interpreter against an X.691 oracle (encoder bits and decoder read-back); UPER = PER minus alignment on token paths; SET ordering; PER-visible constraint plumbing; copy discipline. Permitted alphabets: bits per character and the keep-values / renumber decision of X.691 30.5.4 by evaluation of both constructors on a grid of alphabets. Presence bits by membership; no attribute derived in a constructor alone from a parameter that a set_* method re-configures.',
